@@ -12,8 +12,11 @@
 (*      empty dict / list yields itself MAX_ITER times; an empty tuple is   *)
 (*      zip() of nothing and yields nothing).                               *)
 (*                                                                          *)
-(* One TLC state = one case (tree, N, operation with its parameter) at one  *)
-(* generator position.  Theorems are invariants evaluated in every state.   *)
+(* State space: the initial states are the tree shapes; the first step      *)
+(* (Pick) chooses (N, operation, parameter) -- split with batch b in 1..N+1,*)
+(* mask with any boolean mask, index, or "gen" for event-less trees -- and  *)
+(* fills the tree with event ids; Yield / Stop then run the generator.  So  *)
+(* states = shapes + cases + generator positions.  Theorems are invariants. *)
 (* GenRelation characterises exactly where (2) differs from (1); the        *)
 (* stronger GenLossless (= the property C18 for splitting) is NOT a theorem *)
 (* of (2): TLC refutes it and the counterexample is replayed on the code.   *)
